@@ -115,7 +115,7 @@ DOC_KEYWORDS = {"propagate": ("propogate missing", "propagate missing"), "ignore
 #   SQLite / PostgreSQL (standard_conforming_strings=on, the default since 9.1): only the quote
 STRING_LITERAL_SPECIALS = {
     "SQLiteModel": set(), "PostgreSQLModel": set(),
-    "MySQLModel": {"\\"}, "BigQueryModel": {"\\", "\n"}, "SparkSQLModel": {"\\"},
+    "MySQLModel": {"\\"}, "BigQueryModel": {"\\", "\n"}, "SparkSQLModel": {"\\", "${"},  # Spark substitutes ${…} in the query text before parsing
     "PolarsSQLModel": set(),
 }
 # how the dialect lets a literal contain its own quote character
@@ -130,6 +130,14 @@ QUOTE_ESCAPE_STYLE = {
 #   BigQuery: quoted identifiers "have the same escape sequences as string literals" (GoogleSQL lexical structure)
 IDENTIFIER_SPECIALS = {
     "SQLiteModel": set(), "PostgreSQLModel": set(), "MySQLModel": set(), "SparkSQLModel": set(), "BigQueryModel": {"\\"},
+}
+
+# names a dialect cannot refer to however they are quoted: the quoting function has to refuse them (constants that must appear in a raising test)
+#   Spark: spark.sql.variable.substitute (default on) replaces ${…} in the whole query text, identifiers included
+#   SQLite: a sub-query column called true / false is renamed columnN, and the unmatched "True" is then read as the string 'True' (3.40)
+IDENTIFIER_REFUSALS = {
+    "SparkSQLModel": [({"${"}, "a column named ${system:user.name} comes back named after the substituted value (root)")],
+    "SQLiteModel": [({"true", "false"}, "columns True, False (a pivot on a flag) come back as the texts 'True', 'False': True / (True + False) is 0.0 where Pandas gives 0.17")],
 }
 
 POSTGRESQL_JOIN_KEYWORDS = {"INNER JOIN", "LEFT JOIN", "RIGHT JOIN", "FULL JOIN", "CROSS JOIN",
